@@ -1048,6 +1048,21 @@ impl World {
 
     fn op_meld(&mut self, r: usize, from: usize) {
         if r == from {
+            // melding a replica with itself: returns, transfers nothing, changes nothing (the watchdog catches a hang)
+            let before = self.reps[r].be.snapshot();
+            let (res_ok, n, same) = match &self.reps[r].m {
+                Some(m) => {
+                    let full_before = obs_full(m);
+                    let res = m.meld(m);
+                    (res.is_ok(), res.map(|v| v.len()).unwrap_or(0), obs_full(m) == full_before)
+                }
+                None => return,
+            };
+            self.stat("meld_with_itself");
+            self.emit("meld", r, if res_ok { "ok" } else { "err" }, json!({"from": from}));
+            if !res_ok || n != 0 || !same || self.reps[r].be.snapshot() != before {
+                self.fail("C12", "melding a replica with itself changed or transferred something".into());
+            }
             return;
         }
         let (ra, rb) = two(&mut self.reps, r, from);
@@ -2604,7 +2619,13 @@ pub fn gen_op(w: &World, g: &mut Rng, sim_faults: bool) -> Value {
             json!({"op": "update", "r": r, "doc": doc})
         }
         34..=49 => json!({"op": "commit", "r": r, "info": info(g)}),
-        50..=59 => json!({"op": "meld", "r": r, "from": other}),
+        50..=59 => {
+            if g.chance(1, 25) {
+                json!({"op": "meld", "r": r, "from": r})
+            } else {
+                json!({"op": "meld", "r": r, "from": other})
+            }
+        }
         60..=66 => json!({"op": "refresh", "r": r}),
         67..=68 => json!({"op": "reload", "r": r}),
         69..=72 => json!({"op": "reopen", "r": r}),
